@@ -14,7 +14,7 @@ NOTE_COMMON = ("Trusted: Lean 4.33 kernel; axioms limited to propext/Classical.c
 
 CTL_NOTE = NOTE_COMMON + ("The transition table of the line machine is regenerated from /repo on every run (lean/TxV/Gen/CtlTable.lean) and "
             "interpreted by the model; handlers/matchers and the queue layer are hand-modelled. Twisted's LineOnlyReceiver framing is modelled as a "
-            "byte automaton; MAX_LENGTH is not modelled. ")
+            "byte automaton without a length limit (C01_max_length: the regenerated MAX_LENGTH is at least the 2**20 the property names; the C01 corpus runs lines of up to 2**20-1 bytes). ")
 
 TS_NOTE = NOTE_COMMON + ("Events enter the model as lines split on blanks (line.split() is trusted); int()/rfind(':') of well-formed fields are modelled, "
            "maybe_ip_addr is not (addresses are compared as text); the names ADDRMAP lines give to addresses are modelled for lines without an expiry time (NEVER) — timed expiry is C20's model. Router objects are compared by id_hex. "
